@@ -197,3 +197,12 @@ def main_wrapper(prop, driver_main, argv):
     finally:
         ctx.cleanup()
     return rc
+
+
+def parallel(thunks, max_workers=8):
+    """Run callables concurrently in threads (they spawn subprocesses); returns results in order,
+    re-raising the first exception."""
+    from concurrent.futures import ThreadPoolExecutor
+    with ThreadPoolExecutor(max_workers=max_workers) as ex:
+        futs = [ex.submit(t) for t in thunks]
+        return [f.result() for f in futs]
